@@ -413,6 +413,10 @@ func C15ChecksumShapes() {
 	c1 := (&rawRecord{node: n1}).Checksum()
 	c2 := (&rawRecord{node: n2}).Checksum()
 	same := s1 == s2 && v1 == v2
+	// F24: a list of same-named children renders without the children's name, so
+	// <item>a</item><item>b</item><item>c</item> and <item><v>a</v><v>b</v><v>c</v></item>
+	// share a checksum (same lossy JSONify2 rendering as F13)
+	zz.KnownRegion("F24", v1 == v2 && ((s1 == 1 && s2 == 2) || (s1 == 2 && s2 == 1)))
 	zz.Assert((c1 == c2) == same, "checksums are equal exactly when shape and values are")
 	zz.Cover("compared")
 }
